@@ -585,3 +585,27 @@ Proof.
   split; [reflexivity|]. split; [|rewrite E; reflexivity].
   unfold mlen. rewrite <- C. exact (inv_cap s I).
 Qed.
+
+Lemma wf_set_auto e b : WF e -> WF (set_auto e b).
+Proof. intros [A B C]. constructor; assumption. Qed.
+
+(* proof of Properties.C25_autoreload_current_after_toggle *)
+Lemma C25_autoreload_current_after_toggle_proof : forall ar0 u size l0 h1 h2 n,
+  upt_correct u = true ->
+  let e1 := fst (run (new_env ar0 u size l0) h1) in
+  let e2 := fst (run (set_auto e1 true) h2) in
+  match loader_after (loader_after l0 h1) h2 n with
+  | Some v => exists t, snd (load_template e2 n) = RTpl t v
+  | None => snd (load_template e2 n) = RNotFound
+  end.
+Proof.
+  intros ar0 u size l0 h1 h2 n U e1 e2. subst e1 e2.
+  destruct (run (new_env ar0 u size l0) h1) as [e1 xs1] eqn:R1. cbn [fst].
+  destruct (run_wf h1 _ _ _ (new_env_wf ar0 u size l0) R1) as (W1 & _ & U1 & _ & L1 & _).
+  cbn [new_env upt loader] in U1, L1.
+  destruct (run (set_auto e1 true) h2) as [e2 xs2] eqn:R2. cbn [fst].
+  destruct (run_wf h2 _ _ _ (wf_set_auto e1 true W1) R2) as (W2 & A2 & U2 & _ & L2 & _).
+  cbn [set_auto auto_reload upt loader] in A2, U2, L2.
+  destruct (load_template e2 n) as [e' r] eqn:Ld. cbn [snd]. rewrite <- L1, <- L2.
+  apply (load_current e2 n e' r W2 A2); [now rewrite U2, U1|exact Ld].
+Qed.
